@@ -220,6 +220,16 @@ theorem prod_replicate' (k d : Nat) : (List.replicate k d).prod = d ^ k := by
   | zero => simp
   | succ k ih => rw [List.replicate_succ, List.prod_cons, ih, pow_succ]; ring
 
+/-- the lengths `2^k` and `3·2^k` (Bluestein inner lengths) -/
+def Pow23 (m : Nat) : Prop := ∃ k, m = 2 ^ k ∨ m = 3 * 2 ^ k
+
+/-- what the scalar planner builds for a Bluestein inner length `≥ 64`: `Radix4` over one of four butterflies, or a
+`*Small` node over two butterflies found by `design_butterfly_product` -/
+def BluesteinInnerShape (r : Recipe) : Prop :=
+  (∃ j b, r = .radix4 j (.bfly b) ∧ b ∈ [8, 12, 16, 24]) ∨
+  (∃ l r', l ∈ scalarProductButterflies ∧ r' ∈ scalarProductButterflies ∧
+    (r = .mixedRadixSmall (.bfly l) (.bfly r') ∨ r = .goodThomasSmall (.bfly l) (.bfly r')))
+
 /-- A predicate on recipes that is preserved by every construction the scalar planner performs
 (with the side conditions the planner guarantees at that point).  The totality proof below is carried out for an
 arbitrary such `Q`, so that it yields "the planned tree satisfies `Q`" for free: `Q := fun _ => True` gives plain
@@ -227,13 +237,28 @@ totality (C04), `Q := SpecOK ty` gives "no constructor assert fires" (`Props/C04
 structure ScalarClosed (Q : Recipe → Prop) : Prop where
   dft : ∀ n, n < 2 → Q (.dft n)
   bfly : ∀ b, scalarButterflies.contains b = true → Q (.bfly b)
-  gtSmall : ∀ a b, Q a → Q b → a.len < 33 → b.len < 33 → Nat.gcd a.len b.len = 1 → Q (.goodThomasSmall a b)
-  mrSmall : ∀ a b, Q a → Q b → a.len < 33 → b.len < 33 → Q (.mixedRadixSmall a b)
-  mixedRadix : ∀ a b, Q a → Q b → 33 ≤ a.len * b.len → Q (.mixedRadix a b)
-  raders : ∀ i, Q i → Nat.Prime (i.len + 1) → 33 ≤ i.len + 1 → Q (.raders i)
-  bluesteins : ∀ n i, Q i → 33 ≤ n → 2 * n - 1 ≤ i.len → Q (.bluesteins n i)
-  radixN : ∀ fs b, Q b → 0 < fs.foldl (· * ·) 1 → Q (.radixN fs b)
-  radix4 : ∀ k b, Q b → Q (.radix4 k b)
+  /-- `design_butterfly_product`: two butterflies, product `≤ 992` -/
+  gtSmallBfly : ∀ l r, l ∈ scalarProductButterflies → r ∈ scalarProductButterflies → Nat.gcd l r = 1 →
+    Q (.goodThomasSmall (.bfly l) (.bfly r))
+  mrSmallBfly : ∀ l r, l ∈ scalarProductButterflies → r ∈ scalarProductButterflies →
+    Q (.mixedRadixSmall (.bfly l) (.bfly r))
+  /-- `design_mixed_radix` (only reached for lengths without factors `≤ 7`) -/
+  gtSmall : ∀ a b, Q a → Q b → 1 < a.len → 1 < b.len → a.len < 31 → b.len < 31 → Nat.gcd a.len b.len = 1 →
+    ¬ 2 ∣ a.len * b.len → Q (.goodThomasSmall a b)
+  mrSmall : ∀ a b, Q a → Q b → 1 < a.len → 1 < b.len → a.len < 31 → b.len < 31 →
+    ¬ 2 ∣ a.len * b.len → Q (.mixedRadixSmall a b)
+  mixedRadix : ∀ a b, Q a → Q b → 1 < a.len → 1 < b.len → 33 ≤ a.len * b.len →
+    ¬ 2 ∣ a.len * b.len → Q (.mixedRadix a b)
+  /-- `design_prime`, Rader branch: the inner length `p - 1` is 23-smooth -/
+  raders : ∀ i, Q i → Nat.Prime (i.len + 1) → 33 ≤ i.len + 1 →
+    (∀ p, Nat.Prime p → p ∣ i.len → p ≤ 23) → Q (.raders i)
+  /-- `design_prime`, Bluestein branch -/
+  bluesteins : ∀ n i, Q i → Nat.Prime n → 33 ≤ n → 2 * n - 1 ≤ i.len → i.len < 4 * n → Pow23 i.len →
+    BluesteinInnerShape i → Q (.bluesteins n i)
+  /-- `design_radixn`: the base is a butterfly, or the cross length is at least 2 -/
+  radixN : ∀ fs b, Q b → 2 ≤ b.len → (∀ f ∈ fs, f ∈ [2, 3, 4, 5, 6, 7]) →
+    (2 ≤ fs.foldl (· * ·) 1 ∨ ∃ b', b = .bfly b') → 0 < fs.foldl (· * ·) 1 → Q (.radixN fs b)
+  radix4 : ∀ k b, Q b → 2 ≤ b.len → (1 ≤ k ∨ ∃ b', b = .bfly b') → Q (.radix4 k b)
 
 theorem ScalarClosed.trivial : ScalarClosed (fun _ => True) := by
   constructor <;> intros <;> trivial
@@ -250,13 +275,22 @@ theorem productButterflies_lt : ∀ x ∈ scalarProductButterflies, x < 33 := by
 theorem prime_lt_33_bfly : ∀ n, n < 33 → Nat.Prime n → scalarButterflies.contains n = true := by decide
 
 theorem radixNFinish_ok (Q : Recipe → Prop) (hQ : ScalarClosed Q) (base : Recipe) (cross : Nat)
-    (hcpos : 0 < cross) (hsm : Smooth7 cross) (hqb : Q base) :
+    (hcpos : 0 < cross) (hsm : Smooth7 cross) (hqb : Q base) (hb2 : 2 ≤ base.len)
+    (hcase : 2 ≤ cross ∨ ∃ b', base = .bfly b') :
     ∃ r, radixNFinish base cross = .ok r ∧ r.len = base.len * cross ∧ Q r := by
   unfold radixNFinish
   simp only
   by_cases hc : isPowerOfTwo cross = true ∧ trailingZeros cross % 2 = 0
   · rw [if_pos hc]
-    refine ⟨_, rfl, ?_, hQ.radix4 _ _ hqb⟩
+    have hk : 1 ≤ trailingZeros cross / 2 ∨ ∃ b', base = .bfly b' := by
+      rcases hcase with h2 | hbf
+      · left
+        have he := isPowerOfTwo_eq hc.1
+        by_contra hlt
+        have h0 : trailingZeros cross = 0 := by omega
+        rw [h0] at he; simp at he; omega
+      · exact Or.inr hbf
+    refine ⟨_, rfl, ?_, hQ.radix4 _ _ hqb hb2 hk⟩
     have := isPowerOfTwo_eq hc.1
     simp only [Recipe.len]
     congr 1
@@ -289,19 +323,15 @@ theorem radixNFinish_ok (Q : Recipe → Prop) (hQ : ScalarClosed Q) (base : Reci
     subst hj
     rw [isPowerOfTwo_pow, trailingZeros_pow]
     simp only [not_true_eq_false, if_false]
-    refine ⟨_, rfl, ?_, hQ.radixN _ _ hqb ?_⟩
-    swap
-    · rw [foldl_mul_eq_prod, Nat.one_mul]
-      apply prod_pos_of_forall_pos
+    have hmem : ∀ x ∈ List.replicate k7 7 ++ List.replicate k6 6 ++ List.replicate k5 5 ++ List.replicate k3 3 ++
+        (if j % 2 = 1 then [2] else []) ++ List.replicate (j / 2) 4, x ∈ [2, 3, 4, 5, 6, 7] := by
       intro x hx
       simp only [List.mem_append, List.mem_replicate] at hx
       rcases hx with ((((⟨_, rfl⟩ | ⟨_, rfl⟩) | ⟨_, rfl⟩) | ⟨_, rfl⟩) | hx) | ⟨_, rfl⟩
-      any_goals omega
+      any_goals decide
       split at hx
-      · simp only [List.mem_singleton] at hx; omega
+      · simp only [List.mem_singleton] at hx; subst hx; decide
       · simp at hx
-    simp only [Recipe.len, foldl_mul_eq_prod, List.prod_append, prod_replicate', Nat.one_mul]
-    rw [e7, e6, e5, e3]
     have e2 : 2 ^ j = (if j % 2 = 1 then [2] else []).prod * 4 ^ (j / 2) := by
       have : (4 : Nat) = 2 ^ 2 := by norm_num
       rw [this, ← pow_mul]
@@ -310,19 +340,30 @@ theorem radixNFinish_ok (Q : Recipe → Prop) (hQ : ScalarClosed Q) (base : Reci
         simp only [List.prod_cons, List.prod_nil, Nat.mul_one]
         rw [← pow_succ']; congr 1; omega
       · simp only [List.prod_nil, Nat.one_mul]; congr 1; omega
-    rw [e2]; ring
+    have hprod : (List.replicate k7 7 ++ List.replicate k6 6 ++ List.replicate k5 5 ++ List.replicate k3 3 ++
+        (if j % 2 = 1 then [2] else []) ++ List.replicate (j / 2) 4).foldl (· * ·) 1 = cross := by
+      simp only [foldl_mul_eq_prod, List.prod_append, prod_replicate', Nat.one_mul]
+      rw [e7, e6, e5, e3, e2]; ring
+    refine ⟨_, rfl, ?_, hQ.radixN _ _ hqb hb2 hmem ?_ (by rw [hprod]; exact hcpos)⟩
+    swap
+    · rw [hprod]; exact hcase
+    simp only [Recipe.len, hprod]
 
 theorem radixNTail_ok (Q : Recipe → Prop) (hQ : ScalarClosed Q) (fuel : Nat) (f : PrimeFactors) (b : Nat)
     (hpos : 0 < f.n) (hb : 0 < b)
-    (hdiv : b ∣ f.n) (hsm : Smooth7 (f.n / b))
-    (hbase : ∃ r, scalarForLen fuel b = .ok r ∧ r.len = b ∧ Q r) :
+    (hdiv : b ∣ f.n) (hsm : Smooth7 (f.n / b)) (hb2 : 2 ≤ b)
+    (hbase : ∃ r, scalarForLen fuel b = .ok r ∧ r.len = b ∧ Q r ∧ (b * 2 ≤ f.n ∨ ∃ b', r = .bfly b')) :
     ∃ r, radixNTail fuel f b = .ok r ∧ r.len = f.n ∧ Q r := by
-  obtain ⟨base, hbase, hlen, hqb⟩ := hbase
+  obtain ⟨base, hbase, hlen, hqb, hcase⟩ := hbase
   unfold radixNTail
   rw [if_neg (by omega), hbase]
   have hcross : b * (f.n / b) = f.n := Nat.mul_div_cancel' hdiv
   have hcpos : 0 < f.n / b := Nat.div_pos (Nat.le_of_dvd hpos hdiv) hb
-  obtain ⟨r, hr, hrl, hqr⟩ := radixNFinish_ok Q hQ base (f.n / b) hcpos hsm hqb
+  have hcase' : 2 ≤ f.n / b ∨ ∃ b', base = .bfly b' := by
+    rcases hcase with h2 | hbf
+    · left; exact (Nat.le_div_iff_mul_le hb).2 (by rw [Nat.mul_comm]; exact h2)
+    · exact Or.inr hbf
+  obtain ⟨r, hr, hrl, hqr⟩ := radixNFinish_ok Q hQ base (f.n / b) hcpos hsm hqb (by rw [hlen]; exact hb2) hcase'
   exact ⟨r, hr, by rw [hrl, hlen, hcross], hqr⟩
 
 
@@ -428,6 +469,49 @@ theorem radixNBase_ok (f : PrimeFactors) (h : f.WF) (htot : 2 ≤ f.total)
               rw [if_neg (not_not.2 c6)]
               exact fin 5 (by omega) (dvd_of_countOf_pos f h 5 c6) (by decide)
 
+theorem forall_of_dropWhile_nil {α} (p : α → Bool) : ∀ l : List α, l.dropWhile p = [] → ∀ x ∈ l, p x = true := by
+  intro l
+  induction l with
+  | nil => intro _ x hx; simp at hx
+  | cons y l ih =>
+    intro h x hx
+    rw [List.dropWhile_cons] at h
+    split at h
+    · rename_i hy
+      rcases List.mem_cons.1 hx with rfl | hx
+      · exact hy
+      · exact ih h x hx
+    · cases h
+
+theorem PrimeFactors.WF.productAbove_ge_five {f : PrimeFactors} (h : f.WF) (hgt : f.hasFactorsGt 7 = true) :
+    5 ≤ f.productAbove 7 := by
+  rw [productAbove_eq]
+  apply five_le_prodOf
+  · intro x hx; exact h.entries x ((List.dropWhile_sublist _).subset hx)
+  · intro hnil
+    have hnil := forall_of_dropWhile_nil _ _ hnil
+    unfold PrimeFactors.hasFactorsGt at hgt
+    simp only [show ¬ (7 < 2) by omega, show ¬ (7 < 3) by omega, decide_false, Bool.false_and,
+      Bool.false_or] at hgt
+    cases hl : f.others.getLast? with
+    | none => rw [hl] at hgt; cases hgt
+    | some z =>
+      rw [hl] at hgt
+      have hz : z ∈ f.others := List.mem_of_getLast? hl
+      have := hnil z hz
+      simp only [decide_eq_true_eq] at this hgt
+      omega
+
+/-- no factor `≤ 7` ⇒ odd -/
+theorem PrimeFactors.WF.odd_of_not_leq {f : PrimeFactors} (h : f.WF) (hleq : f.hasFactorsLeq 7 = false) :
+    ¬ 2 ∣ f.n := by
+  unfold PrimeFactors.hasFactorsLeq at hleq
+  simp only [Bool.or_eq_false_iff, decide_eq_false_iff_not] at hleq
+  have hp2 : f.p2 = 0 := by omega
+  have := h.odd_part
+  rw [h.prod_eq, hp2, pow_zero, Nat.one_mul]
+  exact this
+
 theorem scalarRadixN_ok (Q : Recipe → Prop) (hQ : ScalarClosed Q) (F : Nat) (f : PrimeFactors) (h : f.WF)
     (htot : 2 ≤ f.total)
     (hnb : scalarButterflies.contains f.n = false) (hleq : f.hasFactorsLeq 7 = true)
@@ -437,10 +521,14 @@ theorem scalarRadixN_ok (Q : Recipe → Prop) (hQ : ScalarClosed Q) (F : Nat) (f
   obtain ⟨b, hb, hbpos, hdiv, hsm, hcase⟩ := radixNBase_ok f h htot hnb hleq
   rw [scalarRadixN_eq, hb]
   simp only
-  apply radixNTail_ok Q hQ (F + 2) f b h.pos hbpos hdiv hsm
   rcases hcase with ⟨hgt, rfl, hle⟩ | hbf
-  · exact hbase hgt hle
-  · exact ⟨_, scalarForLen_bfly F b hbf, rfl, hQ.bfly b hbf⟩
+  · have h5 := h.productAbove_ge_five hgt
+    apply radixNTail_ok Q hQ (F + 2) f _ h.pos hbpos hdiv hsm (by omega)
+    obtain ⟨r, h1, h2, h3⟩ := hbase hgt hle
+    exact ⟨r, h1, h2, h3, Or.inl hle⟩
+  · apply radixNTail_ok Q hQ (F + 2) f b h.pos hbpos hdiv hsm
+      (butterflies_ge_two b (by simpa using hbf))
+    exact ⟨_, scalarForLen_bfly F b hbf, rfl, hQ.bfly b hbf, Or.inr ⟨b, rfl⟩⟩
 
 /-! ### one unfolding of `design_fft_with_factors` -/
 
@@ -483,14 +571,12 @@ theorem scalarWithFactors_step (Q : Recipe → Prop) (hQ : ScalarClosed Q) (F n 
           productButterflies_sub l h1
         have hr : scalarButterflies.contains r = true :=
           productButterflies_sub r (by simpa using h2')
-        have hl33 : (Recipe.bfly l).len < 33 := productButterflies_lt l h1
-        have hr33 : (Recipe.bfly r).len < 33 := productButterflies_lt r (by simpa using h2')
         rw [scalarForLen_bfly (F + 1) l hl, scalarForLen_bfly (F + 1) r hr]
         simp only
         split
         · rename_i hg
-          exact ⟨_, rfl, by simp [Recipe.len, h3], hQ.gtSmall _ _ (hQ.bfly l hl) (hQ.bfly r hr) hl33 hr33 hg⟩
-        · exact ⟨_, rfl, by simp [Recipe.len, h3], hQ.mrSmall _ _ (hQ.bfly l hl) (hQ.bfly r hr) hl33 hr33⟩
+          exact ⟨_, rfl, by simp [Recipe.len, h3], hQ.gtSmallBfly l r h1 (by simpa using h2') hg⟩
+        · exact ⟨_, rfl, by simp [Recipe.len, h3], hQ.mrSmallBfly l r h1 (by simpa using h2')⟩
   | none =>
     simp only
     by_cases hleq : f.hasFactorsLeq MAX_RADIXN_FACTOR = true
@@ -509,18 +595,21 @@ theorem scalarWithFactors_step (Q : Recipe → Prop) (hQ : ScalarClosed Q) (F n 
       change scalarWithFactors (F + 2) rf.product rf = .ok b at hb
       rw [ha, hb]
       simp only
+      have ha1 : 1 < a.len := by rw [hal]; exact hl1
+      have hb1 : 1 < b.len := by rw [hbl]; exact hr1
+      have hodd : ¬ 2 ∣ a.len * b.len := by rw [hal, hbl, hmul]; exact h.odd_of_not_leq hleq'
       by_cases c1 : lf.product < 31 ∧ rf.product < 31
       · rw [if_pos c1]
-        have ha33 : a.len < 33 := by rw [hal]; exact Nat.lt_trans c1.1 (by decide)
-        have hb33 : b.len < 33 := by rw [hbl]; exact Nat.lt_trans c1.2 (by decide)
+        have ha31 : a.len < 31 := by rw [hal]; exact c1.1
+        have hb31 : b.len < 31 := by rw [hbl]; exact c1.2
         by_cases c2 : lf.product.gcd rf.product = 1
         · rw [if_pos c2]
           exact ⟨_, rfl, by simp [Recipe.len, hal, hbl, hmul],
-            hQ.gtSmall a b hqa hqb ha33 hb33 (by rw [hal, hbl]; exact c2)⟩
+            hQ.gtSmall a b hqa hqb ha1 hb1 ha31 hb31 (by rw [hal, hbl]; exact c2) hodd⟩
         · rw [if_neg c2]
-          exact ⟨_, rfl, by simp [Recipe.len, hal, hbl, hmul], hQ.mrSmall a b hqa hqb ha33 hb33⟩
+          exact ⟨_, rfl, by simp [Recipe.len, hal, hbl, hmul], hQ.mrSmall a b hqa hqb ha1 hb1 ha31 hb31 hodd⟩
       · rw [if_neg c1]
-        refine ⟨_, rfl, by simp [Recipe.len, hal, hbl, hmul], hQ.mixedRadix a b hqa hqb ?_⟩
+        refine ⟨_, rfl, by simp [Recipe.len, hal, hbl, hmul], hQ.mixedRadix a b hqa hqb ha1 hb1 ?_ hodd⟩
         rw [hal, hbl]
         have c1' : ¬ (lf.n < 31 ∧ rf.n < 31) := c1
         rcases Nat.lt_or_ge lf.n 31 with hlt | hge
@@ -597,6 +686,188 @@ theorem bluestein_inner_dvd (len : Nat) (h : 1 ≤ len) : ∃ k, bluesteinInnerL
   obtain ⟨⟨k, hk⟩, _⟩ := bluesteinInnerLen_spec len h
   exact ⟨k + 1, pow2_dvd_six_pow _ k hk⟩
 
+theorem prime_dvd_prodOf (l : List PrimeFactor) (hg : GoodEntries l) (p : Nat) (hp : Nat.Prime p)
+    (hd : p ∣ prodOf l) : ∃ x ∈ l, x.value = p := by
+  induction l with
+  | nil => simp at hd; exact absurd hd hp.one_lt.ne'
+  | cons y l ih =>
+    rw [prodOf_cons] at hd
+    rcases (Nat.Prime.dvd_mul hp).1 hd with h | h
+    · have := hp.dvd_of_dvd_pow h
+      have := (Nat.prime_dvd_prime_iff_eq hp (hg y (List.mem_cons_self ..)).2.2).1 this
+      exact ⟨y, List.mem_cons_self .., this.symm⟩
+    · obtain ⟨x, hx, hxv⟩ := ih hg.tail h
+      exact ⟨x, List.mem_cons_of_mem _ hx, hxv⟩
+
+/-- the prime divisors of a factored number are 2, 3 and the recorded `others` -/
+theorem PrimeFactors.WF.prime_dvd {f : PrimeFactors} (h : f.WF) (p : Nat) (hp : Nat.Prime p) (hd : p ∣ f.n) :
+    p = 2 ∨ p = 3 ∨ ∃ x ∈ f.others, x.value = p := by
+  rw [h.prod_eq] at hd
+  rcases (Nat.Prime.dvd_mul hp).1 hd with h1 | h1
+  · rcases (Nat.Prime.dvd_mul hp).1 h1 with h2 | h2
+    · left; exact (Nat.prime_dvd_prime_iff_eq hp Nat.prime_two).1 (hp.dvd_of_dvd_pow h2)
+    · right; left; exact (Nat.prime_dvd_prime_iff_eq hp Nat.prime_three).1 (hp.dvd_of_dvd_pow h2)
+  · right; right; exact prime_dvd_prodOf _ h.entries p hp h1
+
+/-- exponents of the factorisation of `2^k` / `3·2^k` -/
+theorem pow23_exps (f : PrimeFactors) (h : f.WF) (M k : Nat) (hn : f.n = M) (hk : M = 2 ^ k ∨ M = 3 * 2 ^ k) :
+    f.others = [] ∧ f.p2 = k ∧ (M = 2 ^ k → f.p3 = 0) ∧ (M = 3 * 2 ^ k → f.p3 = 1) := by
+  have hnil := others_nil_of_dvd_six_pow f h (k + 1) (hn ▸ pow2_dvd_six_pow M k hk)
+  have hst := h.strip_two
+  rw [hnil, hn] at hst
+  simp only [prodOf_nil, Nat.mul_one] at hst
+  have h3 : ∀ j, 3 ^ j = 1 → j = 0 := by
+    intro j hj
+    by_contra hc
+    have : 3 ≤ 3 ^ j := Nat.le_self_pow hc 3
+    omega
+  have h3' : ∀ j, 3 ^ j = 3 → j = 1 := by
+    intro j hj
+    rcases j with _ | _ | j
+    · simp at hj
+    · rfl
+    · have : 3 ^ 2 ≤ 3 ^ (j + 1 + 1) := Nat.pow_le_pow_right (by omega) (by omega)
+      omega
+  have h23 : ∀ j, (2 : Nat) ^ j ≠ 3 * 2 ^ k := by
+    intro j hj
+    have : (3 : Nat) ∣ 2 ^ j := ⟨2 ^ k, hj⟩
+    have := Nat.prime_three.dvd_of_dvd_pow this
+    omega
+  rcases hk with e | e
+  · have hst' := hst
+    rw [e, strip_two_pow] at hst'
+    simp only [Prod.mk.injEq] at hst'
+    exact ⟨hnil, hst'.2.symm, fun _ => h3 _ hst'.1.symm, fun e' => absurd (e.symm.trans e') (h23 k)⟩
+  · have hst' := hst
+    rw [e, strip_eq 2 (by omega) 3 k (by omega) (by omega)] at hst'
+    simp only [Prod.mk.injEq] at hst'
+    exact ⟨hnil, hst'.2.symm, fun e' => absurd (e'.symm.trans e) (h23 k), fun _ => h3' _ hst'.1.symm⟩
+
+theorem butterflies_le_32 : ∀ x ∈ scalarButterflies, x ≤ 32 := by decide
+
+/-- the tree built for a Bluestein inner length -/
+theorem scalarForLen_pow23_shape (F M : Nat) (hM : Pow23 M) (h64 : 64 ≤ M) (r : Recipe)
+    (hr : scalarForLen (F + 5) M = .ok r) : BluesteinInnerShape r := by
+  obtain ⟨k, hk⟩ := hM
+  obtain ⟨f, hf, hwf, hfn, _⟩ := compute_spec M (by omega)
+  rw [scalarForLen, if_neg (by omega), hf] at hr
+  simp only at hr
+  obtain ⟨hnil, hp2, hp30, hp31⟩ := pow23_exps f hwf M k hfn hk
+  have hnb : ¬ scalarButterflies.contains M = true := by
+    intro hc
+    have := butterflies_le_32 M (by simpa using hc); omega
+  have hnp : ¬ f.isPrime = true := by
+    intro hp
+    have hpr : Nat.Prime M := hfn ▸ hwf.isPrime_iff.1 hp
+    have h6 : M ∣ 6 := hpr.dvd_of_dvd_pow (pow2_dvd_six_pow M k hk)
+    have : M ≤ 6 := Nat.le_of_dvd (by omega) h6
+    omega
+  rw [scalarWithFactors, if_neg hnb, if_neg hnp] at hr
+  simp only [] at hr
+  revert hr
+  generalize hprod : (if M > 992 ∨ isPowerOfTwo M = true then (none : Option (Nat × Nat))
+        else butterflyProductSearch M (ceilSqrt M + 1) scalarProductButterflies (2 ^ 64) none) = prod
+  intro hr
+  cases prod with
+  | some lr =>
+    obtain ⟨l, r'⟩ := lr
+    simp only at hr
+    split at hprod
+    · exact absurd hprod (by simp)
+    · rcases butterflyProductSearch_spec _ _ _ _ _ l r' hprod with h0 | ⟨h1, h2', h3⟩
+      · exact absurd h0 (by simp)
+      · have hl : scalarButterflies.contains l = true := productButterflies_sub l h1
+        have hr2 : r' ∈ scalarProductButterflies := by simpa using h2'
+        have hr' : scalarButterflies.contains r' = true := productButterflies_sub r' hr2
+        rw [scalarForLen_bfly (F + 1) l hl, scalarForLen_bfly (F + 1) r' hr'] at hr
+        simp only at hr
+        split at hr
+        · simp only [Except.ok.injEq] at hr; subst hr
+          exact Or.inr ⟨l, r', h1, hr2, Or.inr rfl⟩
+        · simp only [Except.ok.injEq] at hr; subst hr
+          exact Or.inr ⟨l, r', h1, hr2, Or.inl rfl⟩
+  | none =>
+    simp only at hr
+    have hleq : f.hasFactorsLeq MAX_RADIXN_FACTOR = true := by
+      cases hc : f.hasFactorsLeq MAX_RADIXN_FACTOR with
+      | true => rfl
+      | false =>
+        exfalso
+        have hodd := hwf.odd_of_not_leq hc
+        apply hodd
+        rw [hfn]
+        have hk1 : 1 ≤ k := by
+          by_contra hc'
+          have : k = 0 := by omega
+          subst this; rcases hk with e | e <;> simp at e <;> omega
+        obtain ⟨j, rfl⟩ : ∃ j, k = j + 1 := ⟨k - 1, by omega⟩
+        rcases hk with e | e <;> rw [e, pow_succ]
+        · exact Dvd.intro_left _ rfl
+        · exact ⟨3 * 2 ^ j, by ring⟩
+    rw [if_pos hleq, scalarRadixN_eq] at hr
+    -- the base
+    have hkM : (M = 2 ^ k ∧ 6 ≤ k) ∨ (M = 3 * 2 ^ k ∧ 5 ≤ k) := by
+      rcases hk with e | e
+      · left; refine ⟨e, ?_⟩
+        by_contra hc
+        have : 2 ^ k ≤ 2 ^ 5 := Nat.pow_le_pow_right (by omega) (by omega)
+        omega
+      · right; refine ⟨e, ?_⟩
+        by_contra hc
+        have : 2 ^ k ≤ 2 ^ 4 := Nat.pow_le_pow_right (by omega) (by omega)
+        omega
+    have hbase : ∃ b m, radixNBase f = .ok b ∧ b ∈ [8, 12, 16, 24] ∧ M = b * 2 ^ (2 * m) := by
+      unfold radixNBase
+      have hgt : ¬ f.hasFactorsGt MAX_RADIXN_FACTOR = true := by
+        unfold PrimeFactors.hasFactorsGt; rw [hnil]; simp [MAX_RADIXN_FACTOR]
+      simp only []
+      rw [if_neg hgt, hnil]
+      have hc0 : countOf ([] : List PrimeFactor) 7 = 0 ∧ countOf ([] : List PrimeFactor) 5 = 0 := ⟨rfl, rfl⟩
+      rcases hkM with ⟨e, hk6⟩ | ⟨e, hk5⟩
+      · have hp3 := hp30 e
+        rw [if_pos ⟨hc0.1, hc0.2, by omega⟩, if_pos hp3, if_neg (by omega)]
+        by_cases hodd : f.p2 % 2 = 1
+        · rw [if_pos hodd]
+          refine ⟨8, (k - 3) / 2, rfl, by decide, ?_⟩
+          rw [e]; have : (8 : Nat) = 2 ^ 3 := by norm_num
+          rw [this, ← pow_add]; congr 1; omega
+        · rw [if_neg hodd]
+          refine ⟨16, (k - 4) / 2, rfl, by decide, ?_⟩
+          rw [e]; have : (16 : Nat) = 2 ^ 4 := by norm_num
+          rw [this, ← pow_add]; congr 1; omega
+      · have hp3 := hp31 e
+        rw [if_pos ⟨hc0.1, hc0.2, by omega⟩, if_neg (by omega), if_neg (by omega)]
+        by_cases hodd : f.p2 % 2 = 1
+        · rw [if_pos hodd]
+          refine ⟨24, (k - 3) / 2, rfl, by decide, ?_⟩
+          have : (24 : Nat) = 3 * 2 ^ 3 := by norm_num
+          have e' : k = 3 + 2 * ((k - 3) / 2) := by omega
+          rw [e, this, Nat.mul_assoc, ← pow_add, ← e']
+        · rw [if_neg hodd]
+          refine ⟨12, (k - 2) / 2, rfl, by decide, ?_⟩
+          have : (12 : Nat) = 3 * 2 ^ 2 := by norm_num
+          have e' : k = 2 + 2 * ((k - 2) / 2) := by omega
+          rw [e, this, Nat.mul_assoc, ← pow_add, ← e']
+    obtain ⟨b, m, hb, hbm, hMb⟩ := hbase
+    rw [hb] at hr
+    simp only at hr
+    have hbb : scalarButterflies.contains b = true := by
+      simp only [List.mem_cons, List.mem_nil_iff, or_false] at hbm
+      rcases hbm with rfl | rfl | rfl | rfl <;> decide
+    have hbpos : 0 < b := by
+      simp only [List.mem_cons, List.mem_nil_iff, or_false] at hbm
+      rcases hbm with rfl | rfl | rfl | rfl <;> omega
+    unfold radixNTail at hr
+    rw [if_neg (by omega), scalarForLen_bfly F b hbb] at hr
+    simp only [PrimeFactors.product] at hr
+    rw [hfn, hMb, Nat.mul_div_cancel_left _ hbpos] at hr
+    unfold radixNFinish at hr
+    simp only [] at hr
+    rw [if_pos ⟨isPowerOfTwo_pow _, by rw [trailingZeros_pow]; omega⟩] at hr
+    simp only [Except.ok.injEq] at hr
+    subst hr
+    exact Or.inl ⟨_, b, rfl, hbm⟩
+
 /-! ### the scalar planner never fails -/
 
 theorem scalarWithFactors_ok (Q : Recipe → Prop) (hQ : ScalarClosed Q) :
@@ -624,13 +895,26 @@ theorem scalarWithFactors_ok (Q : Recipe → Prop) (hQ : ScalarClosed Q) :
         obtain ⟨F'', hF''⟩ : ∃ F'', F' + 2 = F'' + 5 := ⟨F' - 3, by omega⟩
         obtain ⟨inner, hi, hil, hqi⟩ := scalarForLen_smooth6 Q hQ F'' (bluesteinInnerLen n) k hk
         rw [hF'', hi]
-        have hbound := (bluesteinInnerLen_spec n (by omega)).2.1
-        exact ⟨_, rfl, rfl, hQ.bluesteins n inner hqi hn33 (by rw [hil]; exact hbound)⟩
-      · obtain ⟨inner, hi, hil, hqi⟩ := ih (n - 1) (by omega) (by omega) (F' + 2) (by omega) rf hrwf hrn
+        obtain ⟨hshape, hlo, hhi⟩ := bluesteinInnerLen_spec n (by omega)
+        have hsh := scalarForLen_pow23_shape F'' (bluesteinInnerLen n) hshape (by omega) inner hi
+        exact ⟨_, rfl, rfl, hQ.bluesteins n inner hqi hpr hn33 (by rw [hil]; exact hlo) (by rw [hil]; exact hhi)
+          (by rw [hil]; exact hshape) hsh⟩
+      · rename_i hany
+        obtain ⟨inner, hi, hil, hqi⟩ := ih (n - 1) (by omega) (by omega) (F' + 2) (by omega) rf hrwf hrn
         rw [hi]
         have hil1 : inner.len + 1 = n := by omega
+        have hsm : ∀ p, Nat.Prime p → p ∣ inner.len → p ≤ 23 := by
+          intro p hp hd
+          rw [hil, ← hrn] at hd
+          rcases hrwf.prime_dvd p hp hd with rfl | rfl | ⟨x, hx, rfl⟩
+          · omega
+          · omega
+          · by_contra hc
+            apply hany
+            rw [List.any_eq_true]
+            exact ⟨x, hx, by simp only [MAX_RADER_PRIME_FACTOR]; exact decide_eq_true (by omega)⟩
         exact ⟨_, rfl, by simp only [Recipe.len]; omega,
-          hQ.raders inner hqi (by rw [hil1]; exact hpr) (by omega)⟩
+          hQ.raders inner hqi (by rw [hil1]; exact hpr) (by omega) hsm⟩
     · -- the base of design_radixn
       intro _ hle
       generalize f.productAbove 7 = b at *
@@ -725,9 +1009,11 @@ structure SseClosed (Q : Recipe → Prop) : Prop where
   bfly : ∀ b r, sseButterfly b = some r → Q r
   gtSmall : ∀ a b, Q a → Q b → a.len < 33 → b.len < 33 → Nat.gcd a.len b.len = 1 → Q (.goodThomasSmall a b)
   mrSmall : ∀ a b, Q a → Q b → a.len < 33 → b.len < 33 → Q (.mixedRadixSmall a b)
-  mixedRadix : ∀ a b, Q a → Q b → 33 ≤ a.len * b.len → Q (.mixedRadix a b)
-  raders : ∀ i, Q i → Nat.Prime (i.len + 1) → 33 ≤ i.len + 1 → Q (.raders i)
-  bluesteins : ∀ n i, Q i → 33 ≤ n → 2 * n - 1 ≤ i.len → Q (.bluesteins n i)
+  mixedRadix : ∀ a b, Q a → Q b → 1 < a.len → 1 < b.len → 33 ≤ a.len * b.len → Q (.mixedRadix a b)
+  raders : ∀ i, Q i → Nat.Prime (i.len + 1) → 33 ≤ i.len + 1 →
+    (∀ p, Nat.Prime p → p ∣ i.len → p ≤ 23) → Q (.raders i)
+  bluesteins : ∀ n i, Q i → Nat.Prime n → 33 ≤ n → 2 * n - 1 ≤ i.len → i.len < 4 * n → Pow23 i.len →
+    Q (.bluesteins n i)
   sseRadix4 : ∀ k b, b ∈ [12, 16, 24, 32] → Q (.sseRadix4 k (.bfly b))
 
 theorem SseClosed.trivial : SseClosed (fun _ => True) := by
@@ -736,7 +1022,7 @@ theorem SseClosed.trivial : SseClosed (fun _ => True) := by
 theorem sse_prime_lt_33_bfly : ∀ n, n < 33 → Nat.Prime n → (sseButterfly n).isSome = true := by decide
 
 theorem sseMixedRadix_ok (Q : Recipe → Prop) (hQ : SseClosed Q) (F : Nat) (lf rf : PrimeFactors)
-    (hlp : 0 < lf.n) (hrp : 0 < rf.n)
+    (hlp : 1 < lf.n) (hrp : 1 < rf.n)
     (ha : ∃ a, sseWithFactors F lf.n lf = .ok a ∧ a.len = lf.n ∧ Q a)
     (hb : ∃ b, sseWithFactors F rf.n rf = .ok b ∧ b.len = rf.n ∧ Q b) :
     ∃ r, sseMixedRadix (F + 1) lf rf = .ok r ∧ r.len = lf.n * rf.n ∧ Q r := by
@@ -756,15 +1042,16 @@ theorem sseMixedRadix_ok (Q : Recipe → Prop) (hQ : SseClosed Q) (F : Nat) (lf 
       exact ⟨_, rfl, by simp [Recipe.len, hal, hbl], hQ.gtSmall a b hqa hqb ha33 hb33 (by rw [hal, hbl]; exact c2)⟩
     · rw [if_neg c2]; exact ⟨_, rfl, by simp [Recipe.len, hal, hbl], hQ.mrSmall a b hqa hqb ha33 hb33⟩
   · rw [if_neg c1]
-    refine ⟨_, rfl, by simp [Recipe.len, hal, hbl], hQ.mixedRadix a b hqa hqb ?_⟩
+    refine ⟨_, rfl, by simp [Recipe.len, hal, hbl],
+      hQ.mixedRadix a b hqa hqb (by rw [hal]; exact hlp) (by rw [hbl]; exact hrp) ?_⟩
     rw [hal, hbl]
     have c1' : ¬ (lf.n < 33 ∧ rf.n < 33) := c1
     rcases Nat.lt_or_ge lf.n 33 with hlt | hge
     · have : 33 ≤ rf.n := by omega
       calc 33 ≤ 1 * 33 := by decide
-        _ ≤ lf.n * rf.n := Nat.mul_le_mul hlp this
+        _ ≤ lf.n * rf.n := Nat.mul_le_mul (by omega) this
     · calc 33 ≤ 33 * 1 := by decide
-        _ ≤ lf.n * rf.n := Nat.mul_le_mul hge hrp
+        _ ≤ lf.n * rf.n := Nat.mul_le_mul hge (by omega)
 
 /-- base length of `design_radix4` (verbatim from the model) -/
 def sseRadix4Base (p2 p3 : Nat) : Nat :=
@@ -893,7 +1180,7 @@ theorem sseWithFactors_step (Q : Recipe → Prop) (hQ : SseClosed Q) (F n : Nat)
       simp only
       have h64 : 2 ^ 6 ≤ 2 ^ f.p2 := Nat.pow_le_pow_right (by omega) htz6
       have hsub := hSub hbf (fun _ => hr4) (fun hlt => by omega)
-      have := sseMixedRadix_ok Q hQ (F + 2) pt g hptwf.pos hgwf.pos
+      have := sseMixedRadix_ok Q hQ (F + 2) pt g (by rw [hptn]; omega) hg1
         (hsub pt hptwf (by rw [hptn]; omega) (by rw [hptn, ← hgn]; nlinarith))
         (hsub g hgwf hg1 (by rw [← hgn]; nlinarith))
       rw [hptn, hgn] at this
@@ -918,7 +1205,8 @@ theorem sseWithFactors_step (Q : Recipe → Prop) (hQ : SseClosed Q) (F n : Nat)
       simp only
       obtain ⟨r1, hr1⟩ := Option.isSome_iff_exists.1 (sseAll_butterfly _ m1)
       obtain ⟨r2, hr2⟩ := Option.isSome_iff_exists.1 (sseAll_butterfly _ m2)
-      have := sseMixedRadix_ok Q hQ (F + 2) fl fr hflwf.pos hfrwf.pos
+      have := sseMixedRadix_ok Q hQ (F + 2) fl fr (by rw [hfln]; exact sseAll_ge_two _ m1)
+        (by rw [hfrn]; exact sseAll_ge_two _ m2)
         ⟨r1, by rw [hfln]; exact sseWithFactors_bfly _ _ _ _ hr1, by rw [hfln]; exact (sseButterfly_spec _ _ hr1).1,
           hQ.bfly _ _ hr1⟩
         ⟨r2, by rw [hfrn]; exact sseWithFactors_bfly _ _ _ _ hr2, by rw [hfrn]; exact (sseButterfly_spec _ _ hr2).1,
@@ -930,7 +1218,7 @@ theorem sseWithFactors_step (Q : Recipe → Prop) (hQ : SseClosed Q) (F n : Nat)
       rw [hpart]
       simp only
       have hsub := hSub hbf (fun h6 => by omega) (fun _ => by omega)
-      have := sseMixedRadix_ok Q hQ (F + 2) lf rf hlwf.pos hrwf.pos
+      have := sseMixedRadix_ok Q hQ (F + 2) lf rf hl1 hr1
         (hsub lf hlwf hl1 (by rw [← hmul]; nlinarith))
         (hsub rf hrwf hr1 (by rw [← hmul]; nlinarith))
       rw [hmul] at this
@@ -1020,13 +1308,25 @@ theorem sseWithFactors_ok (Q : Recipe → Prop) (hQ : SseClosed Q) :
         obtain ⟨F'', hF''⟩ : ∃ F'', F' + 2 = F'' + 5 := ⟨F' - 3, by omega⟩
         obtain ⟨inner, hi, hil, hqi⟩ := sseForLen_pow2 Q hQ F'' (bluesteinInnerLen n) k hk
         rw [hF'', hi]
-        have hbound := (bluesteinInnerLen_spec n (by omega)).2.1
-        exact ⟨_, rfl, rfl, hQ.bluesteins n inner hqi hn33 (by rw [hil]; exact hbound)⟩
-      · obtain ⟨inner, hi, hil, hqi⟩ := ih (n - 1) (by omega) (by omega) (F' + 2) (by omega) rf hrwf hrn
+        obtain ⟨hshape, hlo, hhi⟩ := bluesteinInnerLen_spec n (by omega)
+        exact ⟨_, rfl, rfl, hQ.bluesteins n inner hqi hpr hn33 (by rw [hil]; exact hlo) (by rw [hil]; exact hhi)
+          (by rw [hil]; exact hshape)⟩
+      · rename_i hany
+        obtain ⟨inner, hi, hil, hqi⟩ := ih (n - 1) (by omega) (by omega) (F' + 2) (by omega) rf hrwf hrn
         rw [hi]
         have hil1 : inner.len + 1 = n := by omega
+        have hsm : ∀ p, Nat.Prime p → p ∣ inner.len → p ≤ 23 := by
+          intro p hp hd
+          rw [hil, ← hrn] at hd
+          rcases hrwf.prime_dvd p hp hd with rfl | rfl | ⟨x, hx, rfl⟩
+          · omega
+          · omega
+          · by_contra hc
+            apply hany
+            rw [List.any_eq_true]
+            exact ⟨x, hx, by simp only [MAX_RADER_PRIME_FACTOR]; exact decide_eq_true (by omega)⟩
         exact ⟨_, rfl, by simp only [Recipe.len]; omega,
-          hQ.raders inner hqi (by rw [hil1]; exact hpr) (by omega)⟩
+          hQ.raders inner hqi (by rw [hil1]; exact hpr) (by omega) hsm⟩
     · intro _ _ _ g hgwf hg1 hgle
       exact ih g.n (by omega) (by omega) (F' + 2) (by omega) g hgwf rfl
 
